@@ -190,9 +190,14 @@ def sweep_instances(sw, r, pool):
             continue
         before = snapshot(o)
         sw.note(["instance", it["cls"], it["args"][:2]], "instance")
-        for name, fn in (("format", lambda: o.format(a[1])), ("str", lambda: str(o)), ("hash", lambda: hash(o)), ("eq", lambda: o == o), ("lt", lambda: o < o),
+        import datetime as _dtm
+        deltas = {"Serial": 3, "Datetime": _dtm.timedelta(days=2), "Version": (0, 1, 0)}
+        adj = []
+        if hasattr(o, "groups") and isinstance(o.groups, dict) and hasattr(o, "adjust"):
+            adj = [(f"adjust-{nm}", (lambda nm=nm, m=m: o.adjust({nm: deltas[type(m).__name__]}))) for nm, m in o.groups.items() if type(m).__name__ in deltas]
+        for name, fn in adj + [("format", lambda: o.format(a[1])), ("str", lambda: str(o)), ("hash", lambda: hash(o)), ("eq", lambda: o == o), ("lt", lambda: o < o),
                          ("values", lambda: o.values()), ("to_const", lambda: o.to_const()), ("valid", lambda: o.valid(a[0], a[1])), ("add", lambda: o + 1), ("sub", lambda: o - 1),
-                         ("repr", lambda: repr(o)), ("value", lambda: o.value)):
+                         ("repr", lambda: repr(o)), ("value", lambda: o.value)]:
             try:
                 fn()
             except Exception:  # noqa: BLE001
@@ -206,7 +211,9 @@ def sweep(tier: str) -> Sweep:
     r = rng("C17")
     sw = Sweep("C17")
     pool = build_pool(r, tier)
-    ref = fresh_outcomes(pool)
+    import framework as _fw
+    with _fw.suspended_guard():
+        ref = fresh_outcomes(pool)
     for it, o in zip(pool, ref):
         sw.note(["item", it], it["op"] + ("-err" if o.startswith("err:") else "-ok"))
         sw.check(not o.startswith("crash:"), "the fresh interpreter failed on the item", {"clause": "fresh", "item": it}, None, o)
@@ -250,10 +257,11 @@ def sweep(tier: str) -> Sweep:
                         results.extend(loc)
 
                 ths = [threading.Thread(target=work, args=(o,)) for o in orders]
-                for t in ths:
-                    t.start()
-                for t in ths:
-                    t.join()
+                with _fw.suspended_guard():
+                    for t in ths:
+                        t.start()
+                    for t in ths:
+                        t.join()
                 for i, got in results:
                     sw.branches[f"threads-{nthreads}"] += 1
                     sw.check(got == ref[i], "the outcome of a call depends on the thread schedule (differs from a fresh interpreter)",
